@@ -272,6 +272,22 @@ func searchC17() {
 						nTrue++
 					}
 				}
+				// call history: the day classes read the lunar day pillar, not the eight-character object of the same lunar date —
+				// selecting the other day-boundary school (sect 1: the day pillar of the eight characters advances at 23:00) on that
+				// shared object changes none of them (late-evening probe only: the one window in which the two schools differ)
+				if ti == 1 {
+					ck.chk("predicate-depends-on-eightchar-school", in+" after GetEightChar().SetSect(1)", func() (bool, string, string) {
+						ec := l.GetEightChar()
+						old := ec.GetSect()
+						ec.SetSect(1)
+						v2 := c17Preds(foto, tao)
+						ec.SetSect(old)
+						if c17Vec(v2) != c17Vec(vec) {
+							return false, c17Vec(v2), c17Vec(vec) + " (before the setter call; order: " + strings.Join(c17PredNames, ",") + ")"
+						}
+						return true, "", ""
+					})
+				}
 				k := c17Key{lm, ld, gan, zhi, term0}
 				where := fmt.Sprintf("%s (lunar %d/%d/%d)", in, ly, lm, ld)
 				// function of (month, day, pillar, term): same inputs on any other day / time of day -> same values
